@@ -60,7 +60,16 @@ Definition learn_moves_ok (w : world) (i : nat) (changed : list nat) : bool :=
 (* the observed population is transmitted incrementally: a step that can only have changed one member (training)
    carries that member's new observation, the others keep theirs.  Alias classes are numbered per CASE (stable
    identifiers of the observed objects), so observations taken at different steps can be put side by side. *)
-Definition entry := (aobs * list N * list N)%type.          (* structure, alias classes, value classes *)
+(* lists of small numbers cross into Coq packed into ONE binary number (20 bits per element, element + 1, least
+   significant first): a literal costs one syntax node instead of one per element *)
+Fixpoint unpack_f (fuel : nat) (x : N) : list N :=
+  match fuel with
+  | O => []
+  | S f => if N.eqb x 0 then [] else N.pred (N.land x 1048575) :: unpack_f f (N.shiftr x 20)
+  end.
+Definition unpack (x : N) : list N := unpack_f (S (N.to_nat (N.log2 x / 20))) x.
+
+Definition entry := (aobs * N * N)%type.          (* structure, packed alias classes, packed value classes *)
 Inductive change := Full (p : list entry) | Upd (us : list (nat * entry)).
 Definition apply_change (c : change) (p : list entry) : list entry :=
   match c with
@@ -68,7 +77,7 @@ Definition apply_change (c : change) (p : list entry) : list entry :=
   | Upd us => fold_left (fun acc u => update (fst u) (snd u) acc) us p
   end.
 Definition to_obs (p : list entry) : obs :=
-  mkObs (concat (map (fun e => snd (fst e)) p)) (concat (map snd p)) (map (fun e => fst (fst e)) p).
+  mkObs (concat (map (fun e => unpack (snd (fst e))) p)) (concat (map (fun e => unpack (snd e)) p)) (map (fun e => fst (fst e)) p).
 
 Record gstep := mkG { gs_ops : list op; gs_obs : change; gs_learn : option (nat * list nat); gs_arch : list afollow }.
 
